@@ -477,6 +477,11 @@ func (g *gen) field(thisField, thatField string, fieldType types.Type) (string, 
 	case *types.Map:
 		return fmt.Sprintf("%s(%s, %s)", g.GetFuncName(typ, typ), thisField, thatField), nil
 	case *types.Struct:
+		if _, isNamed := fieldType.(*types.Named); !isNamed {
+			// an unnamed struct that cannot be compared with == gets its own equal function,
+			// taking a pointer to it would only lead back here.
+			return fmt.Sprintf("%s(%s, %s)", g.GetFuncName(fieldType, fieldType), thisField, thatField), nil
+		}
 		return g.field("&"+thisField, "&"+thatField, types.NewPointer(fieldType))
 	default: // *Chan, *Tuple, *Signature, *Interface, *types.Basic.Kind() == types.UntypedNil, *Struct
 		return "", fmt.Errorf("unsupported type %#v", fieldType)
